@@ -184,6 +184,7 @@ let writer_case (toks : string list) (impl_line : string) : string * string =
   let snap_idx = ref 0 in
   let ev_time : (int, int) Hashtbl.t = Hashtbl.create 64 in   (* event id -> model time of its loop iteration *)
   let restamped = ref [] in                  (* (lines of a file of an earlier run, mtime the harness gave it) *)
+  let start_time = ref None in               (* model time of the running writer's start line *)
   let last_event_time = ref None in          (* Some t: the last accepted line of the running writer is an event *)
   let last_ifiles = ref [] in
   let key_of (ls : line list) = String.concat " " (List.map (fun l -> decimal_of_n l.l_id ^ ":" ^ decimal_of_n l.l_size) ls) in
@@ -235,6 +236,21 @@ let writer_case (toks : string list) (impl_line : string) : string * string =
             if not (ow_age !cfg.max_keep_age (nn now) (old_closed @ gen_closed ifiles)) then
               fail "writer:closed-file-older-than-keep-age"
           | None -> ());
+         (* write-age clause ("no file exceeds the configured age by more than one event"): every line but the
+            first of a file of the running writer was handed over at most max_write_age (+1 tick per line of
+            slack for the model's own event ticks) after the line that opened the file *)
+         List.iter (fun f ->
+             let time_of l = if l.l_id = start_id then !start_time else Hashtbl.find_opt ev_time (int_of_n l.l_id) in
+             match f with
+             | l0 :: rest when not (List.mem_assoc (key_of f) !restamped) ->
+               (match time_of l0 with
+                | Some t0 ->
+                  List.iter (fun l -> match time_of l with
+                      | Some t when l.l_id <> start_id && t - t0 > int_of_n !cfg.max_write_age + List.length f ->
+                        fail "writer:line-appended-to-a-file-older-than-max_write_age"
+                      | _ -> ()) rest
+                | None -> ())
+             | _ -> ()) ifiles;
          let acc = List.rev !accepted in
          if not (oracle_writer !mw !mk acc (nn old_total) ifiles) then
            fail (if not (ow_suffix acc ifiles) then "writer:surviving-files-are-not-a-suffix-of-the-accepted-lines"
@@ -265,6 +281,7 @@ let writer_case (toks : string list) (impl_line : string) : string * string =
       clock := !clock + 1;
       let sl = { l_id = start_id; l_size = nn s0; l_time = nn !clock } in
       accepted := sl :: !accepted;
+      start_time := Some !clock;
       last_event_time := None;
       if not !dead then
         (match start fix18 Debug !cfg prefix (cur_fs ()) [] sl with
@@ -284,6 +301,8 @@ let writer_case (toks : string list) (impl_line : string) : string * string =
        | None -> ());
       go rest
     | "Z" :: ms :: rest -> clock := !clock + int_of_string ms; go rest
+    (* a held event: built now, handed to the writer ms later -- the writer's clock reading is what counts *)
+    | "H" :: ms :: rest -> clock := !clock + int_of_string ms; go rest
     | t :: rest when String.length t > 1 && t.[0] = 'e' ->
       let size = String.sub t 1 (String.length t - 1) in
       clock := !clock + 1;
